@@ -171,7 +171,26 @@ type VerifKPOut struct {
 	Popped   int    // PopPacketNumber calls at the 1-RTT level
 }
 
+// VerifPoisonPacketBuffers leaves dirty packet buffers in the pool: the next getPacketBuffer() calls of this
+// goroutine find every byte of the backing array set to 0xa5 (pool hygiene: a packer must write every byte it
+// sends, padding included).
+func VerifPoisonPacketBuffers() {
+	bufs := make([]*packetBuffer, 0, 3)
+	for i := 0; i < 3; i++ {
+		b := getPacketBuffer()
+		d := b.Data[:cap(b.Data)]
+		for j := range d {
+			d[j] = 0xa5
+		}
+		bufs = append(bufs, b)
+	}
+	for _, b := range bufs {
+		b.Release()
+	}
+}
+
 func (k *VerifKPPacker) Pack(in VerifKPIn) (out VerifKPOut) {
+	VerifPoisonPacketBuffers()
 	v := protocol.Version1
 	if in.V2 {
 		v = protocol.Version2
